@@ -94,7 +94,7 @@ def main():
         "setup_cmd": "bin/check --build",
         "hooks": {
             "guard": "corgi_verif",
-            "enable": "RUSTFLAGS=\"--cfg corgi_verif\" (set by bin/check for every build of the simulator and of corgi)",
+            "enable": "cargo feature corgi_verif of corgi, enabled by /verif/sim/Cargo.toml (corgi = { path = \"/repo\", features = [\"corgi_verif\"] }); every check rebuilds corgi from /repo with it",
             "baseline_off_cmd": "cd /repo && cargo test --workspace --no-fail-fast --offline",
             "source_commits": HOOK_COMMITS,
             "add_only": True,
@@ -114,7 +114,7 @@ def main():
         f.write("\n")
     print("claimed", sorted(CLAIMED), "n/a", [x["property_id"] for x in na])
 
-HOOK_COMMITS = []
+HOOK_COMMITS = ["48d91e0"]
 
 if __name__ == "__main__":
     main()
